@@ -2,3 +2,4 @@ import Rp2.Props.C19
 #print axioms Rp2.C19.links_lead_to_own_row
 #print axioms Rp2.C19.model_dictionary_is_per_asset
 #print axioms Rp2.C19.model_links_lead_to_own_row
+#print axioms Rp2.C19.model_summary_links_first_row_of_year
